@@ -93,7 +93,7 @@ CLAIMED = {
 # rules added after the first revision (validation rounds 2 and 3); appended to the level text / technique
 EXTRA = {
  'C18': "Also: No loop of the three state handlers is left early (every listed shard is handled); ElectLeader never writes through memory shared with its arguments (alias walk over slices, local struct fields and φ-nodes; x[:0:0] is fresh, x[:0] is not).",
- 'C01': "Also: the error of the deferred final flush in storeBuilder.Close reaches its named result and every footer write gates success; a commit reads the version it clones inside the write hold that installs the result; with CURRENT present a new journal is reachable only through a successful replay. The rollup's three manifest commits are ordered: the source's delete-rollup marks are committed before any target drops its reference marks (rule shared with C04).",
+ 'C01': "Also: the error of the deferred final flush in storeBuilder.Close reaches its named result and every footer write gates success; a commit reads the version it clones inside the write hold that installs the result; with CURRENT present a new journal is reachable only through a successful replay. The rollup's three manifest commits are ordered: the source's delete-rollup marks are committed before any target drops its reference marks (rule shared with C04). The obsolete-file scans of an open run only after a successful open, and a torn final manifest record ends the replay instead of failing it (F25, fixed); the rollup's reference cleaning requires the TRUE outcome of the source commit (F23, fixed; shared with C04).",
  'C02': "Also: a commit's base version (GetSnapshot/GetCurrent/Clone) is read in the same write hold of the version-set mutex that installs the new version, so overlapping commits cannot clone one base. The pending-output claim of a new table file is dropped only after the commit that makes a version reference the file (flush and compaction).",
  'C03': "Also: a source block hands out field data only on the found-edge of the lookup of the requested field id; level-1 inputs of an L0 compaction pass through a set keyed by file number (each file merged once); the compaction job is single-flight (flag claimed by CompareAndSwap, job started only by the claimer). The per-block scanner of the merge advances to its next container only when its current high key is SMALLER than the requested one and answers only on an exact match; the series merger positions each input block's decoder with that block's own slot range and writes only what the encoder produced over the target range.",
  'C04': "Also: the rollup job is single-flight (CAS claim, no blind Store(true)); the reference record is written, looked up and deleted under the same key (source store, source family id, file). The series merger decodes every input block over the block's own slot range (rule shared with C03). The targets' reference records are cleaned only on the TRUE outcome of the source family's commit (F23, fixed); every requested source file becomes an input of the rollup merge or the work fails — a file compacted out of level 0 is not passed over (F24, fixed).",
